@@ -146,6 +146,11 @@ def fanout_iteration_source(body, dg):
     for (b, c) in body.calls:
         if (c.get("resolved") or c.get("f")) == SM + "::used_streams":
             out.append((b, "live", "reads through the reference returned by used_streams()"))
+    # the list's own cell borrowed in place (an inlined helper of the streams manager): `&*self.used_streams.get()`
+    for b in sorted(body.reachable):
+        for i, st in enumerate(body.stmts(b)):
+            if st[0] == "A" and st[2][0] in ("Ref", "RawPtr") and any(e != "*" and e[0] == "f" and e[1] == "used_streams" and e[3] == SM for e in st[2][2]["p"]):
+                out.append((b, "live", "borrows the list's cell in place")); break
     return out
 
 
